@@ -17,7 +17,7 @@ import numpy as np
 from .. import models
 from ..core import RunResult, adigest, mix
 from ..driver import pristine_library_state
-from .hist_common import SAME, TAU, contain, draw_container, quiet, with_entropy
+from .hist_common import SAME, TAU, clone, contain, draw_container, quiet, with_entropy
 from .hist_common import call_value as _call_value
 
 NAME = "B9"
@@ -68,7 +68,7 @@ def rand_psd(rng, r, cplx, rank=None):
 
 def draw_game(st, tier, like=None):
     mx = 3 if tier == "thorough" else 2
-    fam = st.weighted([("seesaw", 4), ("free", 1), ("classical_ref", 1)])
+    fam = st.weighted([("seesaw", 8), ("free", 2), ("classical_ref", 2), ("many_functions", 1)])
     a_out, b_out = st.int_range(1, mx), st.int_range(1, mx)
     a_in, b_in = st.weighted([(2, 4), (1, 2), (3, 2)]), st.weighted([(2, 4), (1, 2), (3, 2)])
     if fam == "seesaw":
@@ -80,11 +80,26 @@ def draw_game(st, tier, like=None):
         a_out, b_out = max(2, a_out), max(2, b_out)
     else:
         r = st.int_range(1, 3)
+    many = None
+    if fam == "many_functions":
+        # one player has thousands of answer functions (more than one batch of any batched enumeration, and not a
+        # multiple of 1024), the other a single question; the optimum is planted at the END of the lexicographic
+        # order (highest answer to the first question)
+        eo, ei = [(3, 7), (6, 4), (5, 5), (7, 4), (11, 3)][st.draw(5)]
+        oo = st.int_range(1, 2)
+        r = st.int_range(1, 2)
+        many = "bob" if st.draw(3) else "alice"
+        if many == "bob":
+            a_out, a_in, b_out, b_in = oo, 1, eo, ei
+        else:
+            a_out, a_in, b_out, b_in = eo, ei, oo, 1
     cplx = bool(st.draw(2)) and r > 1
     if like is not None:
         r, (a_out, b_out), (a_in, b_in), cplx, fam = like["referee_dim"], like["answers"], like["questions"], like["complex"], like["family"]
     rng = st.nprng()
     kind = st.weighted([("random_psd", 3), ("indicator", 3), ("projector", 3), ("scaled", 2), ("pauli_bases", 3 if r == 2 else 0), ("integer_diagonal", 2)])
+    if many is not None and like is None:
+        kind = "planted_tail"
     if kind == "pauli_bases":
         cplx = True
     dtype = complex if cplx else float
@@ -116,6 +131,22 @@ def draw_game(st, tier, like=None):
                         if a == b or a_out == 1 or b_out == 1:
                             v = basis[(a if a_out > 1 else b) % 2]
                             pred[:, :, a, b, x, y] = np.outer(v, v.conj())
+    elif kind == "planted_tail":
+        f = rng.integers(0, a_out, size=a_in)
+        g = rng.integers(0, b_out, size=b_in)
+        if many == "bob":
+            g[0] = b_out - 1
+            if st.draw(2):
+                g[1] = b_out - 1
+        else:
+            f[0] = a_out - 1
+            if st.draw(2):
+                f[1] = a_out - 1
+        for a, b, x, y in itertools.product(range(a_out), range(b_out), range(a_in), range(b_in)):
+            pred[:, :, a, b, x, y] = rand_psd(rng, r, cplx) * 0.3 * rng.random()
+        for x in range(a_in):
+            for y in range(b_in):
+                pred[:, :, f[x], g[y], x, y] = np.eye(r)
     elif kind == "integer_diagonal":
         for a, b, x, y in itertools.product(range(a_out), range(b_out), range(a_in), range(b_in)):
             pred[:, :, a, b, x, y] = np.diag(rng.random(r) < 0.5)
@@ -148,7 +179,21 @@ def draw_game(st, tier, like=None):
             if prob.sum() == 0:
                 prob[-1, -1] = 1.0
         prob = prob / prob.sum()
+    dup = None
+    if like is None and many is None and st.draw(5) == 0 and max(a_in, b_in) >= 2:
+        # two of a player's questions carry identical predicate operators while the distribution correlates them
+        # with the other player's questions differently: they are still two questions
+        dup = "alice" if (a_in >= 2 and (b_in < 2 or st.draw(2))) else "bob"
+        if dup == "alice":
+            pred[:, :, :, :, 1, :] = pred[:, :, :, :, 0, :]
+        else:
+            pred[:, :, :, :, :, 1] = pred[:, :, :, :, :, 0]
+        prob = rng.random((a_in, b_in)) ** 2 + 1e-2
+        prob = prob / prob.sum()
+        qk = "correlated"
     meta = {"referee_dim": r, "answers": [a_out, b_out], "questions": [a_in, b_in], "pred_kind": kind, "prob_kind": qk, "complex": cplx, "family": fam, "pred_dtype": str(pred.dtype)}
+    if dup:
+        meta["duplicate_question"] = dup
     return prob, pred, meta
 
 
@@ -191,6 +236,10 @@ def run(cs, tier, run_index):
     r, _, a_out, b_out, a_in, b_in = pred.shape
     if meta["complex"]:
         res.probe("complex_predicate")
+    if meta["family"] == "many_functions":
+        res.probe("thousands_of_answer_functions")
+    if "duplicate_question" in meta:
+        res.probe("duplicate_question")
     if r == 1:
         res.probe("referee_dim_1")
     if r == 3:
@@ -247,7 +296,7 @@ def run(cs, tier, run_index):
                 op["iters"] = 1 + (st.draw(4) == 3)
         ops.append(op)
 
-    if st.draw(2):
+    if st.draw(2) or meta["family"] == "many_functions":
         ops.insert(st.draw(len(ops) + 1), {"op": "unentangled"})  # cheap on both sides: compared with the enumeration model
     pristine, vals, names, ents = {}, {}, [], set()
     for k, op in enumerate(ops):
@@ -256,6 +305,15 @@ def run(cs, tier, run_index):
         if interloper is not None and st.draw(2):
             with with_entropy(ent + 17):
                 call_value(op_fn(interloper, op), res, op["op"] + "(other object)")
+        if st.draw(8) == 0:
+            # the caller continues with a copy of the object (deep copy / pickle round trip / shallow copy)
+            how_c = st.draw(3)
+            try:
+                game = clone(game, how_c)
+            except Exception as e:
+                res.violate("C09.op.raises", op=["deepcopy", "pickle", "copy"][how_c], exc=type(e).__name__, msg=str(e)[:200], position=k, **meta)
+                break
+            res.probe("object_cloned")
         with with_entropy(ent):
             out = call_value(op_fn(game, op), res, op["op"])
         names.append(op["op"])
